@@ -48,6 +48,18 @@ func genSweeps(g *core.Gen, r *core.Rand, keys []keyT, thin int) []caseSpec {
 		n++
 		return thin <= 1 || (n+rot)%thin == 0
 	}
+	// thinning never drops a byte value next to a meaningful one (±1 or one bit flipped): a comparison or a
+	// mask that is off by one bit shows only there
+	near := func(b int, specials ...int) bool {
+		for _, s := range specials {
+			d := b ^ s
+			if b == s || b == s+1 || b == s-1 || d&(d-1) == 0 {
+				return true
+			}
+		}
+		return false
+	}
+	hashTypes := []int{0, 1, 2, 3, 0x81, 0x82, 0x83}
 	sh := txShape{version: 2, lockTime: 0, sequence: 0xfffffffe, nIn: 1, idx: 0, nOut: 2, amount: 50000}
 	flagSets := []txscript.ScriptFlags{txscript.StandardVerifyFlags, consensusAll}
 	add := func(class string, w int, fl txscript.ScriptFlags, script []byte, mk func(b *builtSpend) [][]byte) {
@@ -65,7 +77,7 @@ func genSweeps(g *core.Gen, r *core.Rand, keys []keyT, thin int) []caseSpec {
 	for ht := 0; ht < 256; ht++ {
 		for _, w := range []int{wBare, wP2WSH} {
 			for _, fl := range flagSets {
-				if !keep() {
+				if !keep() && !near(ht, hashTypes...) {
 					continue
 				}
 				ht := byte(ht)
@@ -79,7 +91,7 @@ func genSweeps(g *core.Gen, r *core.Rand, keys []keyT, thin int) []caseSpec {
 	tsc := cat(pushBytes(k.xonly), []byte{0xac})
 	for ht := 0; ht < 256; ht++ {
 		for _, fl := range flagSets {
-			if !keep() {
+			if !keep() && !near(ht, hashTypes...) {
 				continue
 			}
 			ht := byte(ht)
@@ -108,7 +120,7 @@ func genSweeps(g *core.Gen, r *core.Rand, keys []keyT, thin int) []caseSpec {
 		for _, long := range []bool{false, true} {
 			for _, w := range []int{wBare, wP2WSH} {
 				for _, fl := range flagSets {
-					if !keep() {
+					if !keep() && !near(b0, 2, 3, 4, 6, 7) {
 						continue
 					}
 					pk := append([]byte{}, k.comp...)
@@ -124,9 +136,10 @@ func genSweeps(g *core.Gen, r *core.Rand, keys []keyT, thin int) []caseSpec {
 			}
 		}
 	}
-	// (d) first byte of the last witness element of a two-element taproot witness (only 0x50 is an annex)
+	// (d) first byte of the last witness element of a two-element taproot witness (only 0x50 is an annex; any
+	//     other byte makes it a 3-byte control block, which fails)
 	for b0 := 0; b0 < 256; b0++ {
-		if !keep() {
+		if !keep() && !near(b0, 0x50) {
 			continue
 		}
 		b0 := byte(b0)
@@ -134,11 +147,10 @@ func genSweeps(g *core.Gen, r *core.Rand, keys []keyT, thin int) []caseSpec {
 		tw := txscript.TweakTaprootPrivKey(*k.priv, nil)
 		out = append(out, caseSpec{class: "gen:sweep:annex-tag", sp: rawSpend(r, sh, consensusAll, cat([]byte{0x51, 0x20}, schnorr.SerializePubKey(q)),
 			func(tx *wire.MsgTx, idx int, f *txscript.MultiPrevOutFetcher, _ []*wire.TxOut) ([]byte, wire.TxWitness) {
+				// signed as if the element were an annex whatever its first byte: an implementation that
+				// takes a neighbour of 0x50 for the tag accepts exactly this spend
 				last := []byte{b0, 0x01, 0x02}
-				var annex []byte
-				if b0 == 0x50 {
-					annex = last
-				}
+				annex := last
 				tx.TxIn[idx].Witness = wire.TxWitness{make([]byte, 64), last}
 				d, _ := txscript.VerifTaprootKeySpendSigHashC06(txscript.NewTxSigHashes(tx, f), 0, tx, idx, f, annex)
 				sg, _ := schnorr.Sign(tw, d)
@@ -149,7 +161,7 @@ func genSweeps(g *core.Gen, r *core.Rand, keys []keyT, thin int) []caseSpec {
 	for v := 0; v < 256; v++ {
 		for _, plen := range []int{32, 20} {
 			for _, fl := range flagSets {
-				if !keep() {
+				if !keep() && !near(v, 0x00, 0x4f, 0x51, 0x60) {
 					continue
 				}
 				pk := cat([]byte{byte(v), byte(plen)}, rep(0x33, plen))
